@@ -9,6 +9,7 @@ pub mod c07;
 pub mod c08;
 pub mod c09;
 pub mod c10;
+pub mod c11;
 pub mod c12;
 pub mod c13;
 pub mod c14;
@@ -31,6 +32,7 @@ pub fn lookup(id: &str) -> Option<&'static dyn Prop> {
         "C08" => &c08::C08,
         "C09" => &c09::C09,
         "C10" => &c10::C10,
+        "C11" => &c11::C11,
         "C12" => &c12::C12,
         "C13" => &c13::C13,
         "C14" => &c14::C14,
